@@ -449,3 +449,58 @@ Proof.
 Qed.
 
 End Support.
+
+(* ------------------------------------------------------------------ *)
+(* the two readings of "stream output in [0, 1)"                        *)
+Section Corollaries.
+Variables erf erfinv gammaf lgammaf : R -> R.
+Notation NR := (numR erf erfinv gammaf lgammaf).
+
+Definition half_open (u : R) : Prop := 0 <= u < 1.
+Definition open01 (u : R) : Prop := 0 < u < 1.
+
+(* every class that does not divide by an inner gamma draw: uniforms in [0, 1),
+   0 included - never raises, value in the documented support *)
+Theorem support_half_open : forall d cache us,
+  wf d -> divides d = false -> Forall half_open us ->
+  match draw NR false d cache us with
+  | (Val (v, _), _) => in_support d v
+  | (Err e, _) => e = NoUniform
+  end.
+Proof.
+  intros d cache us W D Hu.
+  pose proof (@draw_support erf erfinv gammaf lgammaf half_open (fun u H => H) d cache W (or_introl D) us Hu) as K.
+  destruct (draw NR false d cache us) as [[[v c]|e] r]; simpl in *; tauto.
+Qed.
+
+(* all 19 classes: uniforms in the open interval *)
+Theorem support_open : forall d cache us,
+  wf d -> Forall open01 us ->
+  match draw NR false d cache us with
+  | (Val (v, _), _) => in_support d v
+  | (Err e, _) => e = NoUniform
+  end.
+Proof.
+  intros d cache us W Hu.
+  assert (Q1 : forall u, open01 u -> 0 <= u < 1) by (unfold open01; intros; lra).
+  assert (QP : Qpos open01) by (unfold Qpos, open01; intros; lra).
+  pose proof (@draw_support erf erfinv gammaf lgammaf open01 Q1 d cache W (or_intror QP) us Hu) as K.
+  destruct (draw NR false d cache us) as [[[v c]|e] r]; simpl in *; tauto.
+Qed.
+
+(* with uniforms in the open interval the gamma family is strictly positive *)
+Theorem gamma_positive_open : forall shape scale us,
+  0 < shape -> 0 < scale -> Forall open01 us ->
+  match draw_gamma NR false shape scale us with
+  | (Val y, _) => 0 < y
+  | (Err e, _) => e = NoUniform
+  end.
+Proof.
+  intros shape scale us Hs Hc Hu.
+  assert (Q1 : forall u, open01 u -> 0 <= u < 1) by (unfold open01; intros; lra).
+  assert (QP : Qpos open01) by (unfold Qpos, open01; intros; lra).
+  pose proof (@safe_draw_gamma erf erfinv gammaf lgammaf open01 Q1 shape scale Hs Hc us Hu) as K.
+  destruct (draw_gamma NR false shape scale us) as [[y|e] r]; [|assumption].
+  destruct K as [[_ K] _]. apply K. left. exact QP.
+Qed.
+End Corollaries.
